@@ -28,6 +28,7 @@ var predSpecs = []predSpec{
 	{"langserver/check/compiler/lexer", "CompareTwoLoc", "", "compareTwoLoc"},
 	{"langserver/check/compiler/lexer", "GetRangeLoc", "", "getRangeLoc"},
 	{"langserver/check/compiler/lexer", "GetRangeLocExcludeEnd", "", "getRangeLocExcludeEnd"},
+	{"langserver/check/compiler/lexer", "tokenLoc", "", "tokenLoc"},
 	{"langserver/check/compiler/lexer", "isWhiteSpace", "", "isWhiteSpace"},
 	{"langserver/check/compiler/lexer", "isNewLine", "", "isNewLine"},
 	{"langserver/check/compiler/lexer", "isDigit", "", "isDigit"},
@@ -187,6 +188,8 @@ func leanType(e ast.Expr) (string, string) {
 		switch x.Name {
 		case "Location":
 			return "GLoc", "loc"
+		case "Token":
+			return "GTok", "tok"
 		case "int", "uint32":
 			return "Int", "int"
 		case "byte":
@@ -211,6 +214,7 @@ func genPreds(repo string) {
 	var b strings.Builder
 	b.WriteString("namespace LuaHelper.Gen\n\n")
 	b.WriteString("structure GLoc where\n  StartLine : Int\n  StartColumn : Int\n  EndLine : Int\n  EndColumn : Int\nderiving DecidableEq, Repr\n\n")
+	b.WriteString("/-- the position fields of lexer.Token -/\nstructure GTok where\n  line : Int\n  lineStartPos : Int\n  rangeFromPos : Int\n  rangeToPos : Int\n  startLine : Int\n  startLineStartPos : Int\nderiving DecidableEq, Repr\n\n")
 	b.WriteString("structure GPos where\n  Line : Int\n  Character : Int\nderiving DecidableEq, Repr\n\n")
 	b.WriteString("structure GRange where\n  Start : GPos\n  End : GPos\nderiving DecidableEq, Repr\n\n")
 	cache := map[string]*pkgFiles{}
